@@ -54,6 +54,17 @@ pub fn close() {
     l.out = None;
 }
 
+pub fn lines() -> u64 {
+    LOG.lock().unwrap_or_else(|e| e.into_inner()).lines
+}
+
+pub fn flush() {
+    let mut l = LOG.lock().unwrap_or_else(|e| e.into_inner());
+    if let Some(o) = l.out.as_mut() {
+        let _ = o.flush();
+    }
+}
+
 pub fn emit(v: serde_json::Value) {
     if QUIET.load(Ordering::Relaxed) != 0 {
         return;
@@ -73,11 +84,44 @@ macro_rules! ev {
     };
 }
 
+/// Schedule jitter (real-thread drivers): per-mille probability of yielding at a callback point.
+pub static JITTER: AtomicI64 = AtomicI64::new(0);
+thread_local! {
+    static RNG: Cell<u64> = const { Cell::new(0x9E3779B97F4A7C15) };
+}
+pub fn seed_thread_rng(s: u64) {
+    RNG.with(|r| r.set(s | 1));
+}
+fn next_rand() -> u64 {
+    RNG.with(|r| {
+        let mut x = r.get();
+        x ^= x << 13;
+        x ^= x >> 7;
+        x ^= x << 17;
+        r.set(x);
+        x
+    })
+}
+pub fn jitter() {
+    let j = JITTER.load(Ordering::Relaxed);
+    if j > 0 {
+        let x = next_rand();
+        if (x % 1000) < j as u64 {
+            if (x >> 20) % 4 == 0 {
+                std::thread::sleep(std::time::Duration::from_micros((x >> 30) % 200));
+            } else {
+                std::thread::yield_now();
+            }
+        }
+    }
+}
+
 pub const INJECTED: &str = "VERIF-INJECTED-PANIC";
 
 /// A user callback point (body entry, read, eq, hash, cycle_fn, cycle_initial, event callback).
 /// Panics here when this is the armed crash point.
 pub fn cb(point: &'static str) {
+    jitter();
     let n = CB_COUNT.fetch_add(1, Ordering::SeqCst) + 1;
     let at = INJECT_AT.load(Ordering::SeqCst);
     if at != 0 && n == at {
